@@ -142,6 +142,7 @@ class SDictV(SV):
     def pvc_len(self, I):
         return SInt(self.n)
 
+
     def pvc_truth(self, I):
         return self.n > 0
 
@@ -326,6 +327,33 @@ class SeqDict:
 
     def pvc_len(self, I):
         return SInt(self.n)
+
+    def pvc_contains(self, I, k):
+        if isinstance(k, SOpaque) and k.z.sort() == self.key_at(z3.IntVal(0)).sort():
+            return wrap(self.has(k.z))
+        return False
+
+    def wrapk(self, z):
+        return SymV(z) if z.sort() == Sym else StrV(z)
+
+    def wrapv(self, z):
+        return SReal(z) if z.sort() == z3.RealSort() else SOpaque(z)
+
+    def pvc_getitem(self, I, k):
+        I.raise_if(z3.Not(self.has(k.z)), "KeyError")
+        return self.wrapv(self.get(k.z))
+
+    def pvc_iter(self, I):
+        return SSeq(SInt(self.n), lambda i: self.wrapk(self.key_at(i)), "keys(seqdict)")
+
+    def pvc_getattr(self, I, name):
+        if name == "items":
+            return Builtin("dict.items", lambda I2, a, k: SSeq(SInt(self.n), lambda i: (self.wrapk(self.key_at(i)), self.wrapv(self.val_at(i))), "items(seqdict)"))
+        if name == "keys":
+            return Builtin("dict.keys", lambda I2, a, k: self.pvc_iter(I2))
+        if name == "values":
+            return Builtin("dict.values", lambda I2, a, k: SSeq(SInt(self.n), lambda i: self.wrapv(self.val_at(i)), "values(seqdict)"))
+        return NotImplemented
 
 
 # ------------------------------------------------------------------------------------------------
